@@ -703,6 +703,12 @@ class Field(
                     if len(cm_axes) == 1 and cm_axes[0] in domain_axes:
                         keys.add(cm_key)
 
+            if not keys:
+                # No keys were found but some criteria were provided,
+                # so force filter_by_key to return no cell method
+                # constructs.
+                keys = (None,)
+
             identities = ()
             filter_kwargs = {
                 "filter_by_key": keys,
